@@ -47,25 +47,16 @@ Definition ratio_bad_64 : list (Z * Z * Z)%type := bad_triples form_ratio (zr 1 
 Lemma form_ratio_swap rank n nc : form_ratio rank n nc = form_prop n rank nc.
 Proof. reflexivity. Qed.
 
-(* the code's form is the exact floor on the whole box (also proved for all operands < 2^26 in FloatRank.v) *)
-Theorem code_form_exact_64 : bad_triples form_code (zr 1 64) = [].
-Proof. vm_compute. reflexivity. Qed.
 
-(* the re-associated form rank * (n / nc) floors one lower on exactly these 39 triples (nc, n, rank) of the box
-   1 <= n, rank <= nc <= 64; by form_ratio_swap the form (rank / nc) * n fails on the same triples with n and rank
-   exchanged.  All need a non-dyadic proportion; equal splits n = nc / k with rank a multiple of k are not among them. *)
+(* the triples found by the sweeps of RankSweep.v *)
 Definition prop_bad_64_list : list (Z * Z * Z)%type :=
   [(22, 15, 22); (23, 13, 23); (26, 15, 26); (39, 31, 39); (43, 23, 43); (43, 31, 43); (44, 15, 44); (44, 30, 22);
    (44, 30, 44); (45, 13, 45); (45, 26, 45); (46, 13, 46); (46, 26, 23); (46, 26, 46); (47, 3, 47); (47, 6, 47);
    (47, 12, 47); (47, 24, 47); (47, 31, 47); (49, 1, 49); (49, 2, 49); (49, 4, 49); (49, 8, 49); (49, 16, 49);
    (49, 27, 49); (49, 32, 49); (50, 29, 50); (51, 31, 51); (52, 15, 52); (52, 30, 26); (52, 30, 52); (55, 7, 55);
    (55, 14, 55); (55, 15, 55); (55, 28, 55); (55, 29, 55); (55, 30, 55); (55, 31, 55); (58, 31, 58)].
-Theorem prop_form_bad_64 : prop_bad_64 = prop_bad_64_list /\ all_one_lower form_prop prop_bad_64_list = true.
-Proof. vm_compute. split; reflexivity. Qed.
 
 (* nc = 384 (Neuropixels), collection sizes that are multiples of 16, every rank 1..384 *)
 Definition prop_bad_384 : list (Z * Z * Z)%type :=
   flat_map (fun n => flat_map (fun r => if form_prop r n 384 =? (r * n) / 384 then [] else [(384, n, r)]) (zr 1 384))
            (map (fun k => 16 * k) (zr 1 24)).
-Theorem prop_form_bad_384 : prop_bad_384 = [(384, 208, 216)] /\ form_prop 216 208 384 = 116 /\ form_code 216 208 384 = 117.
-Proof. vm_compute. repeat split; reflexivity. Qed.
